@@ -29,7 +29,11 @@ RULE_ADDED = (
               'root, the first root) and has an element of a valid path replaced through add_element '
               '(broken, then put back); bit flips drawn half of the time from the ends of a datum '
               'and from the six structural bytes of the DER signature; a third of the shards under '
-              'python -O ')
+              'python -O '
+              ' '
+              'Round 8: certifier elements whose value is a public key followed or preceded by '
+              'extra bytes, genuinely signed; one key in eight has a coordinate beginning or en'
+              'ding like an encoding marker (00/02/03/04). ')
 RULE = RULE + " " + RULE_ADDED.strip()
 ASSUMPTIONS = [
     "oracle: pv/oracle/certv1.py (own secp256k1 arithmetic, ECDSA by cryptography/OpenSSL); "
